@@ -76,7 +76,64 @@ def struct_pack(I, fv, args, kw):
             except PyRaise as e:
                 I.raise_py("struct.error", "ubyte format requires 0 <= number <= 255")
         return VBytes([Lit(out)])
-    raise Unsupported(f"struct.pack format {f}")
+    return struct_pack_general(I, f, vals)
+
+
+def struct_pack_general(I, f, vals):
+    """struct.pack for standard-size formats made of s, x, B, H, I, Q (and b/h/i/q rejected), with < > ! = prefixes"""
+    import re as _re
+    order = "little"
+    if f[:1] in "<>!=@":
+        if f[0] in ">!":
+            order = "big"
+        if f[0] == "@":
+            raise Unsupported("native struct alignment")
+        f = f[1:]
+    toks = _re.findall(r"(\d*)([sxBHIQ])", f)
+    if "".join(a + b for a, b in toks) != f.replace(" ", ""):
+        raise Unsupported(f"struct.pack format {f}")
+    out = VBytes([])
+    vals = list(vals)
+    sizes = {"B": 1, "H": 2, "I": 4, "Q": 8}
+    for cnt, code in toks:
+        n = int(cnt) if cnt else 1
+        if code == "x":
+            out = concat(out, VBytes.lit(bytes(n)))
+        elif code == "s":
+            if not vals:
+                I.raise_py("struct.error", "pack expected more items")
+            v = I.resolve(vals.pop(0))
+            if not isinstance(v, VBytes):
+                I.raise_py("struct.error", "argument for 's' must be a bytes object")
+            ln = v.length()
+            # the value is truncated or zero padded to exactly n bytes
+            if isinstance(ln, int):
+                if ln >= n:
+                    out = concat(out, I.slice_bytes(v.with_kind("bytes"), 0, n))
+                else:
+                    out = concat(concat(out, v.with_kind("bytes")), VBytes.lit(bytes(n - ln)))
+            else:
+                if I.path.branch(_iv(ln) >= n, "struct_s_len"):
+                    out = concat(out, I.slice_bytes(v.with_kind("bytes"), 0, n))
+                else:
+                    out = concat(concat(out, v.with_kind("bytes")), VBytes([View(z3.K(B.INT, z3.BitVecVal(0, 8)), 0, z3.simplify(n - _iv(ln)))]))
+        else:
+            for _ in range(n):
+                if not vals:
+                    I.raise_py("struct.error", "pack expected more items")
+                v = I.resolve(vals.pop(0))
+                if isinstance(v, VBool):
+                    v = ops._to_intlike(I, v)
+                if not isinstance(v, VInt):
+                    I.raise_py("struct.error", "required argument is not an integer")
+                from .interp import PyRaise
+                try:
+                    out = concat(out, B.int_to_bytes(I, v, sizes[code], order))
+                except PyRaise as e:
+                    I.raise_py("struct.error", "argument out of range")
+    if vals:
+        I.raise_py("struct.error", "pack expected fewer items")
+    return out
 
 
 def struct_unpack(I, fv, args, kw):
@@ -673,7 +730,8 @@ def queue_call(I, fv, args, kw):
 
 
 def make_transport(I, cs=None, typ=None, name="transport"):
-    return ext_obj(I, "transport", closing=VBool(t=z3.Bool(fresh(name + "_closing"))), name=name)
+    c0 = VBool(t=z3.Bool(fresh(name + "_closing")))
+    return ext_obj(I, "transport", closing=c0, init_closing=c0, name=name)
 
 
 def transport_attr(I, ref, o, name):
